@@ -46,6 +46,12 @@ M = [
  ('dma-engine-answers-before-last-sub-transaction', DMA, lambda s: s.replace('return rqC.subordinateCount == 0', 'return rqC.subordinateCount <= 1')),
  ('dma-engine-line-split-off-by-one', DMA, lambda s: nth(s, 'lengthInUnit := (1 << dma.Log2AccessSize) - unitOffset', 'lengthInUnit := (1 << dma.Log2AccessSize) - unitOffset + 1', 0)),
  ('dma-engine-d2h-wrong-dst-offset', DMA, lambda s: s.replace('offset := req.Address - processing.SrcAddress', 'offset := (req.Address - processing.SrcAddress) &^ 63')),
+ ('dma-engine-matches-response-to-oldest-pending', DMA, lambda s: s.replace("""	for _, r := range dma.pendingReqs {
+		if r.Meta().ID == id {
+			reqToRet = r""", """	for i, r := range dma.pendingReqs {
+		if i == 0 {
+			reqToRet = r""")),
+ ('dma-engine-counts-response-against-oldest-collection', DMA, lambda s: s.replace("if rc.decrementCountIfExists(req.Meta().ID) {", "if !found && rc.subordinateCount > 0 {\n\t\t\trc.subordinateCount--").replace("if rc.decrementCountIfExists(r.Meta().ID) {", "if !found && rc.subordinateCount > 0 {\n\t\t\trc.subordinateCount--")),
  ('driver-d2h-completes-with-one-request-left', MC, lambda s: nth(s, '''	copyCmd.RemoveReq(req)
 
 	if len(copyCmd.Reqs) == 0 {''', '''	copyCmd.RemoveReq(req)
